@@ -14,6 +14,10 @@ func FloatValueApprox(fraction, margin float64) Value {
 			return false, false
 		}
 		fx, fy := x.Float(), y.Float()
+		if fx == fy || (math.IsNaN(fx) && math.IsNaN(fy)) {
+			// a value is always equivalent to itself; the arithmetic below has no answer for infinities and NaN
+			return true, true
+		}
 		relMarg := fraction * math.Min(math.Abs(fx), math.Abs(fy))
 		return math.Abs(fx-fy) <= math.Max(margin, relMarg), true
 	}
